@@ -1,5 +1,5 @@
 import Hgxv.Model.C02
-import Hgxv.Proofs.C02All
+import Hgxv.Proofs.C02Total
 /-! # C02 - property theorems (DirectedHypergraph faithfully stores (source set, target set) hyperedges)
 
 Model: `Hgxv/Model/C02.lean` (concrete `Store` mirroring `core/directed_hypergraph.py` after the `fix:` commits
@@ -242,6 +242,24 @@ theorem C02_removed_node_gone (s : Store) (hr : Reachable s) (n : Node) (keep : 
   obtain ⟨hinv, hg⟩ := removeNode_spec s n keep (C02_inv s hr)
   have g := hg hok
   exact ⟨hinv, g.adjS, g.adjT, g.nmeta, gone_queries hinv n g⟩
+
+/-- **`remove_node` never raises half-way.**  In every reachable object, `remove_node(n, keep_edges)` on a present
+node is accepted in both modes (so `C02_removed_node_gone` applies to every removal of a present node), and on an
+absent node it is rejected and changes nothing.  Uses two further invariants of every history: ids increase along
+`_edge_list` and along every adjacency list (`Ord`), and an unweighted hypergraph stores weight 1 everywhere (`Unw`,
+needed because the re-insertion of a shrunk hyperedge passes the stored weight to `add_edge`). -/
+theorem C02_removeNode_accepts (s : Store) (hr : Reachable s) (n : Node) (keep : Bool) :
+    (checkNode s n = true → (removeNode s n keep).2 = .ok) ∧
+    (checkNode s n = false → removeNode s n keep = (s, .rej)) := by
+  obtain ⟨cs, slot, hcs, hs⟩ := hr
+  obtain ⟨h, o, u⟩ := runCmds_all [] cs hcs (fun _ _ h => by simp [get?] at h) (fun _ _ h => by simp [get?] at h)
+    (fun _ _ h => by simp [get?] at h)
+  constructor
+  · intro hn
+    exact removeNode_accepts s n keep (h slot s hs) (o slot s hs) (u slot s hs) hn
+  · intro hn
+    have hn' : has s.adjS n = false := hn
+    simp [removeNode, hn']
 
 /-- non-vacuity: removing node 2 with keep_edges=True from `{((1,2),(3,)):8, ((3,),(1,2)):4}` is accepted and yields
 `{((1,),(3,)):8, ((3,),(1,)):4}`; with a node whose removal empties a side the hyperedge is dropped -/
